@@ -1013,6 +1013,30 @@ class Interp:
         if isinstance(f, ast.Attribute) and isinstance(f.value, ast.Name) and f.value.id in ("_LOGGER", "logger"):
             self.eval_log_call(node, fr)
             return NONE
+        if (isinstance(f, ast.Name) and f.id == "next" and len(node.args) == 2 and isinstance(node.args[0], ast.GeneratorExp)
+                and len(node.args[0].generators) == 1 and not node.args[0].generators[0].is_async and not node.keywords):
+            # next((e for t in xs if c), default)  ==  for t in xs: if c: r = e; break   else: r = default
+            g = node.args[0].generators[0]
+            rname = "__pyvc_next"
+            hit = [ast.Assign(targets=[ast.Name(id=rname, ctx=ast.Store())], value=node.args[0].elt), ast.Break()]
+            body = hit
+            for cond in reversed(g.ifs):
+                body = [ast.If(test=cond, body=body, orelse=[])]
+            loop = ast.For(target=g.target, iter=g.iter, body=body,
+                           orelse=[ast.Assign(targets=[ast.Name(id=rname, ctx=ast.Store())], value=node.args[1])])
+            loop = ast.copy_location(loop, node)
+            ast.fix_missing_locations(loop)
+            tn = [n.id for n in ast.walk(g.target) if isinstance(n, ast.Name)]
+            saved = {n: fr.locals[n] for n in tn if n in fr.locals}
+            try:
+                self.st_For(loop, fr)
+            finally:
+                for n in tn:
+                    if n in saved:
+                        fr.locals[n] = saved[n]
+                    else:
+                        fr.locals.pop(n, None)
+            return fr.locals.pop(rname)
         if isinstance(f, ast.Name) and f.id == "super" and not node.args:
             sv = fr.locals.get("self", fr.locals.get("cls"))
             if isinstance(sv, VUnion):
